@@ -373,9 +373,19 @@ Proof. exact airdrop_claim_only_signed_wallet. Qed.
 (* a minter or a collection can only be instantiated by a contract (and a minter only by
    one that answers the Params query, i.e. a factory), never by a user account *)
 Theorem C05_instantiate_requires_contract_sender :
-  (forall t answers_params, inst_allowed t false answers_params = false) /\
-  (forall is_contract, inst_allowed IMinter is_contract false = false).
+  (forall t p, ip_sender_is_contract p = false -> inst_allowed t p = false) /\
+  (forall p, ip_sender_answers_params p = false -> inst_allowed IMinter p = false).
 Proof. exact (conj instantiate_requires_contract_sender minter_instantiate_requires_factory). Qed.
+
+(* the decisive party is the SENDER, not the address the message names as minter: the
+   named party's being a contract changes nothing, and a user account naming an existing
+   contract is refused *)
+Theorem C05_instantiate_decided_by_sender_not_by_named_minter :
+  (forall t sender_is_contract sender_answers_params named1 named2,
+     inst_allowed t (mkIP sender_is_contract sender_answers_params named1)
+     = inst_allowed t (mkIP sender_is_contract sender_answers_params named2)) /\
+  (forall t sender_answers_params, inst_allowed t (mkIP false sender_answers_params true) = false).
+Proof. exact (conj instantiate_ignores_named_party user_naming_a_contract_refused). Qed.
 
 Theorem C05_refused_changes_nothing : forall st env sender m,
   auth_step st env sender m = Err -> apply_auth st (env, sender, m) = st.
@@ -791,6 +801,7 @@ Print Assumptions C05_splits_distribute_rejected_otherwise.
 Print Assumptions C05_splits_admin_changes_only_by_admin.
 Print Assumptions C05_airdrop_claim_only_signed_wallet.
 Print Assumptions C05_instantiate_requires_contract_sender.
+Print Assumptions C05_instantiate_decided_by_sender_not_by_named_minter.
 Print Assumptions C05_refused_changes_nothing.
 Print Assumptions C05_full_oe_reserved_handlers_reject_non_admin.
 Print Assumptions C05_full_oe_admin_never_changes.
